@@ -184,8 +184,13 @@ func (repo *StoragePeerRepository) Load(ctx context.Context) error {
 		return errors.Wrap(err, "Failed to read peers count")
 	}
 
-	// Reset
-	repo.list = make(PeerList, 0, count)
+	// Reset. The count is only a hint for the capacity, so don't trust it beyond the data that is
+	// there. Each peer takes at least 12 bytes.
+	capacity := int(count)
+	if capacity < 0 || capacity > buffer.Len()/12 {
+		capacity = buffer.Len() / 12
+	}
+	repo.list = make(PeerList, 0, capacity)
 
 	// Parse peers
 	for {
@@ -263,12 +268,16 @@ func readPeer(r io.Reader, version uint8) (Peer, error) {
 		return result, err
 	}
 
-	addressData := make([]byte, addressSize)
-	_, err := io.ReadFull(r, addressData) // Read until string terminator
-	if err != nil {
+	if addressSize < 0 {
+		return result, errors.New("Negative address size")
+	}
+
+	// Let the buffer grow as data is read so a damaged size can't cause a huge allocation.
+	var addressData bytes.Buffer
+	if _, err := io.CopyN(&addressData, r, int64(addressSize)); err != nil {
 		return result, err
 	}
-	result.Address = string(addressData)
+	result.Address = addressData.String()
 
 	// Read score
 	if err := binary.Read(r, binary.LittleEndian, &result.Score); err != nil {
